@@ -25,6 +25,9 @@ class CombHarness(Elaboratable):
             m = TModule()
         else:
             m = Module()
+        # keeps the sync domain present so that amaranth.sim can clock purely combinational wrappers on replay
+        keep = Signal(name="_keep_sync")
+        m.d.sync += keep.eq(1)
         for n, v in self.fn(m, self.sigs).items():
             v = Value.cast(v)
             o = Signal(v.shape(), name="o_" + n)
